@@ -87,6 +87,8 @@ func cmdRun(args []string) {
 	digests := fs.Bool("digests", false, "log per-step determinism digests (C19)")
 	dflag := fs.Bool("diff", false, "differential of the middleware against the wrapped transfer app (C07)")
 	pobs := fs.Bool("parseobs", false, "log direct parser observations and constructor round trips (C15)")
+	skipDisc := fs.Bool("skipdisc", false, "do not execute discarded steps at all (a node that never served the simulation / failed tx)")
+	reverse := fs.Bool("reverse", false, "replay the histories in reverse order (a different process history)")
 	must(fs.Parse(args))
 	fullReimport = *full
 	parseObs = *pobs
@@ -143,11 +145,20 @@ func cmdRun(args []string) {
 	sc := bufio.NewScanner(in)
 	sc.Buffer(make([]byte, 1<<20), 64<<20)
 	nb, ns := 0, 0
+	var lines []string
 	for sc.Scan() {
 		line := strings.TrimSpace(sc.Text())
-		if line == "" {
-			continue
+		if line != "" {
+			lines = append(lines, line)
 		}
+	}
+	must(sc.Err())
+	if *reverse {
+		for i, j := 0, len(lines)-1; i < j; i, j = i+1, j-1 {
+			lines[i], lines[j] = lines[j], lines[i]
+		}
+	}
+	for _, line := range lines {
 		var b Behaviour
 		if err := json.Unmarshal([]byte(line), &b); err != nil {
 			panic(machineryError{"bad behaviour line: " + err.Error()})
@@ -155,12 +166,22 @@ func cmdRun(args []string) {
 		bctx, _ := w.base.CacheContext()
 		w.seq = 0
 		for i, s := range b.Steps {
+			if *skipDisc && s.Disc {
+				// the step leaves no committed state by specification: this node never ran it.
+				// (packet sequence numbers stay those of the full history)
+				if s.T == "recv" {
+					w.seq++
+				}
+				s.normalise()
+				must(enc.Encode(Line{B: b.B, I: i + 1, In: s, Res: Res{Ack: "skipped"}}))
+				ns++
+				continue
+			}
 			ln := r.step(bctx, b.B, i+1, s)
 			must(enc.Encode(ln))
 			ns++
 		}
 		nb++
 	}
-	must(sc.Err())
 	fmt.Fprintf(os.Stderr, "orbsim: %d behaviours, %d steps\n", nb, ns)
 }
